@@ -373,8 +373,10 @@ func (c *Conn) LocalMultiaddr() ma.Multiaddr   { return c.laddr }
 func (c *Conn) RemoteMultiaddr() ma.Multiaddr  { return c.raddr }
 func (c *Conn) Scope() network.ConnScope       { return &network.NullScope{} }
 func (c *Conn) Transport() transport.Transport { return c.t }
-func (c *Conn) Stat() network.ConnStats        { return network.ConnStats{Stats: network.Stats{Limited: c.t.Limited}} }
-func (c *Conn) TransportName() string          { return c.t.Name }
+func (c *Conn) Stat() network.ConnStats {
+	return network.ConnStats{Stats: network.Stats{Limited: c.t.Limited}}
+}
+func (c *Conn) TransportName() string { return c.t.Name }
 
 // Stream is a fake muxed stream.
 type Stream struct {
